@@ -21,6 +21,18 @@ CLAIMS = {
               "globals (a lock passed by pointer makes the check exit 2). Unbounded waits that are not on locks (polling for an interface that never answers) are outside the statement."),
         design="DESIGN.md section 4, C11",
     ),
+    "C10": dict(
+        category="other",
+        technique="static analysis: lock-contract check at call sites + context-sensitive pointer provenance to shared regions x locksets x thread classes (race rule)",
+        text=("Decides the lock-discipline clause the property rests on: (CON) all documented 'Shall only be called with X acquired' contracts hold at "
+              "every call site in every concurrent calling context; (ACC) for every field of every shared region, no two accesses from thread classes "
+              "that can run in parallel, one of them a write, lack a common protecting lock; (POP) queue removals hold the queue mutex; (FLAG) the "
+              "lock-free flags are volatile single-byte objects. Linearizability of getter results beyond 'copied inside one critical section' and "
+              "multi-entity snapshots are not decided."),
+        note=(TRUST + "Region->lock table (DESIGN 2.1) cross-checked against majority inference on every run; README exclusivity of start/stop/sys_reset; "
+              "glib containers reached only through tabled globals; provenance of values returned by unknown externals is 'unknown' (not a region)."),
+        design="DESIGN.md section 4, C10",
+    ),
 }
 
 NOT_APPLICABLE = {
